@@ -1,5 +1,6 @@
 import LassoProofs.Lemmas.Paths
 import LassoProofs.Lemmas.THistory
+import LassoModel.Extracted
 /-
   C02 — canonical keys: equal strings share one key, different strings never do; lookups answer
   exactly "interned or not"; interning a present string changes nothing.
@@ -133,5 +134,18 @@ def badRehash (k : Nat) : Option UInt64 := some k.toUInt64
 example : (match tableInsert [((fun (_ : Bytes) => (7 : UInt64)) [1], 0)] 7 1 true badRehash with
     | .ok t => decide (tfind (fun _ => 7) (fun k => if k = 0 then some [1] else if k = 1 then some [2] else none) t [1] = none)
     | _ => false) = true := by decide
+
+/-! ### Tie to the source
+
+The model hashes the complete string with the table's hash function at every lookup, insert and in the
+rehash closure (`env.hash`, `rehashFn`).  The extractor lists every `let hash = …`, every `hash_one`
+call, every hash handed to the raw-entry API and every piece of hand-rolled hashing in `rodeo.rs`,
+`reader.rs` and `threaded_rodeo.rs`; all of them must be `hash_one` of one whole string (resp. the
+binding `hash`). -/
+theorem hash_sites_whole_string :
+    (Extracted.hashSites.all fun s => s.shape == .hashOneWhole) = true ∧
+    (Extracted.hashSites.any fun s => s.kind == .binding) = true ∧
+    (Extracted.hashSites.any fun s => s.kind == .use) = true := by
+  decide
 
 end Lasso.C02
